@@ -1340,13 +1340,19 @@ pub fn main(args: &util::Args) {
         }
     }
     // minimised past failures of this property
-    if let Ok(rd) = std::fs::read_dir(util::verif_root().join("corpus").join("C09")) {
-        let mut files: Vec<_> = rd.filter_map(|e| e.ok().map(|e| e.path())).filter(|p| p.extension().is_some_and(|x| x == "gom")).collect();
+    // (+ the coverage witnesses `corpus/C01/cov-*.gom`: shapes no generator produced, tools/coverage_audit.py)
+    for sub in ["C09", "C01"] {
+        let Ok(rd) = std::fs::read_dir(util::verif_root().join("corpus").join(sub)) else { continue };
+        let mut files: Vec<_> = rd.filter_map(|e| e.ok().map(|e| e.path())).filter(|p| p.extension().is_some_and(|x| x == "gom")).filter(|p| sub != "C01" || p.file_name().is_some_and(|n| n.to_string_lossy().starts_with("cov-"))).collect();
         files.sort();
         let dir = util::scratch_dir("c09c");
         for f in files {
             let Ok(src) = std::fs::read_to_string(&f) else { continue };
-            let id = format!("corpus:C09/{}", f.file_name().unwrap().to_string_lossy());
+            // (calls of extern "go" functions are uninterpreted events: their effects are not comparable across stages)
+            if sub == "C01" && src.contains("extern \"go\"") {
+                continue;
+            }
+            let id = format!("corpus:{}/{}", sub, f.file_name().unwrap().to_string_lossy());
             match util::compile_text(&dir, &src) {
                 Outcome::Ok(c) => {
                     writeln!(out, "{}\tEXPECT\tnone\t", id).unwrap();
@@ -1377,6 +1383,7 @@ pub fn main(args: &util::Args) {
             wildcard_arrays: false,
             nested_patterns: i % 4 == 1,
             logic_rhs_shapes: i % 5 == 2,
+            cov_shapes: i % 6 == 4,
             ..Default::default()
         };
         let (src, _) = crate::progen::gen_program(&mut rng, cfg);
